@@ -35,6 +35,8 @@ type Schedule struct {
 	Seed  uint64         `json:"seed,omitempty"`
 	// TextBase is added to the text ids of Send steps
 	TextBase int `json:"textbase,omitempty"`
+	// ShortDH: every DH exponent drawn has a public value with a leading zero byte
+	ShortDH bool `json:"shortdh,omitempty"`
 	// NoKeys: parties created without a long-term key
 	NoKeys []string `json:"nokeys,omitempty"`
 	Steps  []Step   `json:"steps"`
@@ -58,6 +60,7 @@ func newWorld(sc *Schedule, seed uint64, out *os.File) *world.World {
 		if z := sc.Frag[n]; z > 0 {
 			w.SetFragSize(w.P[n], z)
 		}
+		w.P[n].Rand.ShortDH = sc.ShortDH
 		for _, nk := range sc.NoKeys {
 			if nk == n {
 				w.P[n].Conv.SetOurKeys(nil)
@@ -325,6 +328,19 @@ func cmdGen(args []string) int {
 var genIdx int
 
 func genSchedule(rng *rand.Rand, family string, depth int) *Schedule {
+	if family == "shortdh" {
+		// a handshake (either start) and ping-pong traffic in which every DH value is short
+		sc := genSchedule(rng, "pingpong", depth)
+		sc.Setup = "none"
+		sc.ShortDH = true
+		sc.Fam = "none"
+		pre := []Step{{A: "Query", P: []string{"A", "B"}[rng.Intn(2)]}}
+		for k := 0; k < 4; k++ {
+			pre = append(pre, Step{A: "Deliver", P: "B"}, Step{A: "Deliver", P: "A"})
+		}
+		sc.Steps = append(pre, sc.Steps...)
+		return sc
+	}
 	if family == "qlife" || family == "qerrlife" {
 		// the lifecycle families with texts that begin like a query message
 		sc := genSchedule(rng, family[1:], depth)
